@@ -186,17 +186,26 @@ func (w *world) Run(t *rt.Tape, trace bool) *core.Result {
 	joinDelay := make([]time.Duration, n)
 	connDelay := make([]time.Duration, n)
 	runDelay := make([]time.Duration, n)
+	// mostly milliseconds; in some runs seconds, in some an operator (or a slow machine) makes a
+	// party minutes late - anything in the code under test that waits by the clock must survive it
+	unit := time.Millisecond
+	switch t.Choose(rt.SGen, 10) {
+	case 7, 8:
+		unit = time.Second / 4
+	case 9:
+		unit = 30 * time.Second
+	}
 	for i := range ps {
 		ps[i] = &party{id: i, addr: fmt.Sprintf("party%d:9100", i)}
 		smp.Inputs = append(smp.Inputs, "0x"+in[i].Text(16))
 		if t.Choose(rt.SGen, 2) == 1 {
-			joinDelay[i] = time.Duration(t.Choose(rt.SGen, 100)) * time.Millisecond
+			joinDelay[i] = time.Duration(t.Choose(rt.SGen, 100)) * unit
 		}
 		if t.Choose(rt.SGen, 2) == 1 {
-			connDelay[i] = time.Duration(t.Choose(rt.SGen, 100)) * time.Millisecond
+			connDelay[i] = time.Duration(t.Choose(rt.SGen, 100)) * unit
 		}
 		if t.Choose(rt.SGen, 3) == 0 {
-			runDelay[i] = time.Duration(t.Choose(rt.SGen, 200)) * time.Millisecond
+			runDelay[i] = time.Duration(t.Choose(rt.SGen, 200)) * unit
 		}
 		smp.Delays = append(smp.Delays, fmt.Sprintf("p%d: join+%v connect+%v run+%v", i, joinDelay[i], connDelay[i], runDelay[i]))
 	}
